@@ -14,7 +14,7 @@ CLAIMED = {
                  'estimate (loop skeletons, columns and formats extracted from source); a static scan shows every writer of results.py, biogeme.py and database.py '
                  'takes its name from get_new_file_name. Tied and checked by seven streams: names, backup, boolean, history (directory snapshots by sha256 and mtime '
                  'after every real writer call), toml (bit-exact values), reports (parsed back to printed precision), pickle. PARTIAL: TOCTOU between is_file() and '
-                 'open(); LaTeX row rendering is pandas\'.'),
+                 'open(); LaTeX row rendering is pandas\'. For every history of read_file (existing or missing file), set_value and dump_file on ONE Parameters object (plain or held by a BIOGEME object, including the property setters) every file written reads back in a fresh object as the values held at that moment: dump_file (translated every run) regenerates its document whatever document the object already held (T14d_dump_file_regenerates, T14d_history_roundtrip; stream params compares every dump exactly and with the Coq run of the generated definitions).'),
         'note': KERNEL + 'Section hypotheses: tomlkit parse/dumps, pickle load/dump; py2v and the extractors in lib/props/C14.py; OS rename/copy/open semantics; '
                 'Parameters.dump_file, the default biogeme.toml, sample_and_merge and __*.iter (C15) are not counted as result/report/data-dump files.',
     },
@@ -53,7 +53,7 @@ CLAIMED['C08'] = {
              'the Moore-Penrose inverse of -H whenever pinv satisfies the Penrose equations; compiled-table rows hold the quantity their label names; '
              'LR-test statistic, df and roles. Stream stats runs bioResults on synthetic raw outcomes (K = 1..8; Hessian negative definite / singular / '
              'indefinite / absent; PSD BHHH; with and without null likelihood, bounds, bootstrap) and on real estimations and checks EVERY reported number '
-             'against its defining formula in exact rational arithmetic. The same oracle is applied to HISTORIES of one raw-outcome object (stream history): the object is reported, then its raw inputs are replaced (Hessian, BHHH, bootstrap sample, likelihoods, sizes, estimates; matrices may appear or disappear) and it is reported again through every entry point of results.py (same object, deep copy, write_pickle + pickle_file before / after the update, plain pickle); every report of the history must follow from the inputs held at that step (sampled, not proved).'),
+             'against its defining formula in exact rational arithmetic. The same oracle is applied to HISTORIES of one raw-outcome object (stream history): the object is reported, then its raw inputs are replaced (Hessian, BHHH, bootstrap sample, likelihoods, sizes, estimates; matrices may appear or disappear) and it is reported again through every entry point of results.py (same object, deep copy, write_pickle + pickle_file before / after the update, plain pickle); every report of the history must follow from the inputs held at that step (sampled, not proved). T08i: with the attribute list generated from _clear_stats (called first by _calculate_stats, checked by the extractor), after any history of re-processing one raw-results object a derived statistic or matrix is present iff the matrix of its family is held now.'),
     'note': KERNEL + 'py2v and the specialised extractors in lib/props/C08.py; Section variables for numpy/scipy (fmax, Phi, pinv with the Penrose equations '
             'as hypothesis, chi2_ppf); nan_to_num = identity on finite input; scipy.linalg.pinv/eigh/svd, np.cov, pandas exact-checked on samples, not '
             'verified; HTML/LaTeX/F12 renderings are C14\'s.',
@@ -210,7 +210,7 @@ CLAIMED['C10'] = {
              'fragment (from C02\'s D_correct); the engine\'s Gauss-Hermite rule equals the real-line integral whenever its node table is exact for the integrand '
              '(PARTIAL: quadrature accuracy is sampled, 1e-4). Tied on every run: exact vm_compute comparison of numbering, tables, refusals, reserved names; engine '
              'values (get_value_c, two-step prepare, BIOGEME.simulate, 1-3 threads) inside proved enclosures of the model\'s mean with deterministic tagged generators '
-             'and with recorded native draws (all 21 types); seed reproducibility bit-for-bit; Integrate vs closed forms; Derive vs enclosure of D.'),
+             'and with recorded native draws (all 21 types); seed reproducibility bit-for-bit; Integrate vs closed forms; Derive vs enclosure of D. Histories on one database are covered too: several models / separate evaluations / prepare-once evaluations / a function created once, sharing ONE bioDraws leaf or MonteCarlo / Derive / Integrate node while declaring different draw names and parameters (the slot of the shared variable and the literal index differ); every step vs the enclosure of its own formula; T10a_stale_identifiers_refuted shows why identifiers must belong to the preparation whose table the engine holds.'),
     'note': KERNEL + 'engine modelled from its C++ and only sampled; numpy array/moveaxis/RNG semantics assumed (RNG as arbitrary oracle); known finding: Derive through '
             'bioLinearUtility is wrong in the external engine; conflicting draw types are refused since the repair in /repo.',
 }
@@ -226,7 +226,7 @@ CLAIMED['C16'] = {
              'Tied by streams on random structures (shared/nested catalogs, helpers, from_dict): catalog tree as built, controllers, count, ids, iteration, every sampled '
              'configuration (tree, selected names, elementary expressions, get_children/get_signature views, get_value), every operator with steps {1,2,size,size+1,...} '
              'and its inverse. PARTIAL: values compared through Python get_value and identical canonical signatures, not through the C++ engine; two Controller objects '
-             'of one name are outside the model (open known finding).'),
+             'of one name are outside the model (open known finding). Added: a formula is accepted iff controllers of one name are one Controller object wherever they sit (merge_controllers regenerated from source; T16j), so accepted formulas have pairwise distinct controller names and the id determines the configuration; for every legal controller state, hence after any history and whatever the creation order of catalogs, a formula reads as the hand-written formula of the configuration it reports, which lies in its own product (T16i). Streams history (objects created between moves through every entry point, every object read after every step, own count and ids of embedded sub-formulas) and malformed (two controllers of one name refused at every position and through the helpers, shared object accepted).'),
     'note': KERNEL + 'tie-A extractor lib/props/c16_extract.py (py2v + fail-closed AST templates); CPython semantics of str.split/sorted/dict/set as modelled; random.choices as an arbitrary oracle.',
 }
 
@@ -241,7 +241,7 @@ CLAIMED['C07'] = {
              'vanishes exactly at first-order points. PARTIAL: final >= init, bounds respected, stationarity and agreement depend on the external optimisers: their '
              'contracts appear as explicit hypotheses on an oracle and are only sampled (~1.1k estimations quick / ~33k thorough over all 9 algorithm names, 5 bound '
              'configurations, restart files, quick_estimate; compared with recomputation and an independent numpy likelihood). One open known finding (false '
-             'convergence of the external simple_bounds with a pinned parameter).'),
+             'convergence of the external simple_bounds with a pinned parameter). Also proved: with optimize() as read from the source (it assigns no attribute), the results of estimate(run_bootstrap=True), including the convergence status, are those of the estimation on the full sample whatever the re-estimations return, and the bootstrap rows are the re-estimations started at the estimates (T07i); with the per-call allocation of the derivative arrays read from the source, the matrices held by a results object survive any later evaluations (T07j). Also sampled: estimations with bootstrap (with and without iteration limits) and histories of further calls on the same BIOGEME object before and after the estimation, all under recording spies (reported status and estimates compared with what the routine of the main estimation returned); a second concave family whose likelihood is undefined (NaN) on an unguarded region: there only automatic and simple_bounds* satisfy the property, LS/TR and scipy are open known findings of the external optimisers.'),
     'note': KERNEL + 'py2v plus the C07 extractors, validated each run against recorded real calls; biogeme_optimization, scipy.optimize.minimize, FunctionToMinimize, '
             'cythonbiogeme are not verified; floats read as reals.',
 }
@@ -256,7 +256,7 @@ CLAIMED['C12'] = {
              'breaks T12_0; an unknown shape aborts. Tie B: method-level correspondence and the property oracle on real entry points (BIOGEME, get_value_c, '
              'get_value_and_derivatives, Database, models.*), per operator kind x slot x fault kind, plus the missing-data rule on one-row tables. Three open known '
              'findings: dict formulas on panel data (the repository\'s own tests require acceptance), the engine\'s linear utility swallowing a missing value, the '
-             'eager LogLogit audit.'),
+             'eager LogLogit audit. Tie A also extracts the rules of the entry points: accumulation of the per-formula audits in BIOGEME._audit, the scope of the draw-type check in IdManager.prepare, Database._audit reading the current table only, the pairwise nest comparison. Theorems added: a fault in any position of a multi-formula specification is reported; one draw name with two distributions is refused wherever the two declarations sit (one formula or across formulas) and a reported clash is genuine; nests with a repeated alternative are refused. The fault oracle additionally covers dictionary specifications with the fault in each position, draw-type clashes at every ordered pair of formulas, nest faults at every pair of positions, database histories (a fault entering the table after earlier operations) and evaluation histories (repeated evaluations of the same objects with stored or fresh identifiers under table or catalog changes in both orders, each call judged separately). Not judged: a catalog at the very top of a formula under stored identifiers; NaN or strings entering the table between two get_value_c calls.'),
     'note': KERNEL + 'the ast extractor and its class <-> head mapping; the expression bridge; evalX as the lazy reading semantics (engine modelled); pandas dtype '
             'classes as abstracted in Model/Audit.v; LogLogit choice rule modelled for constant / column choices only.',
 }
@@ -272,7 +272,7 @@ CLAIMED['C15'] = {
              'write discipline (temp file + os.replace), line format, parser, the prologues of estimate / quick_estimate and the bootstrap suspension/restoration are '
              'regenerated from biogeme.py by a fail-closed AST extractor on every run. Refuted variants (in-place write, no marker update, split(=), quick_estimate '
              'without prologue, bootstrap not suspended / data not restored) document what each repaired line carries. The session semantics is compared with real '
-             'BIOGEME objects after every evaluation, on crafted files, and under os._exit injected at every byte of every save; thorough adds real SIGKILLs (not a proof).'),
+             'BIOGEME objects after every evaluation, on crafted files, and under os._exit injected at every byte of every save; thorough adds real SIGKILLs (not a proof). Histories also include bootstrap loops left by an exception with the object used again (BootstrapAbort; T15f_abort_data_not_restored_refuted documents what the finally clause carries), and evaluations through every public entry point (calculate_likelihood_and_derivatives with scaled / hessian / bhhh, its deprecated alias, likelihood_finite_difference_hessian, check_derivatives): the marker always compares the totals returned by the engine. Strings are byte sequences in the model and names may be non-ASCII; half of the streamed sessions run in a non-UTF-8 (C) locale; the extractor requires explicit utf-8 on both open() calls and f, g, x unmodified between the engine call and the save branch.'),
     'note': KERNEL + 'Section hypotheses: os.replace atomic (POSIX rename), float(str(v)) == v, str(v) has no white space / = / line break (both checked on every '
             'streamed value); a crash is a process death, not a power failure (no fsync claim); the specialised extractor in lib/props/C15.py + py2v.',
 }
